@@ -26,7 +26,7 @@ func init() {
 		ID:        "C14",
 		Level:     "model_checking",
 		Technique: "bounded exhaustive exploration of all sequences of render operations (formats, decorations, long-lived wrappers, package functions, auto styles) on the real tables; differential oracle against each target's first render on a fresh identical table, plus an observable-state snapshot compared around every render",
-		Rule: "15 tables (shapes of C10 plus user properties on every owner kind, a recorded error, size-declaring items, alignment settings, a stale pointer item + zero-value Cell in a skipable column, a table whose JSON rendering fails half-way) x family render-sequences: every sequence of length <=4 (thorough <=5) over 17 render operations: long-lived csv/json/markdown/html(+row classes)/text(default)/text(ascii) wrappers reused across the sequence, " +
+		Rule: "16 tables (shapes of C10 plus user properties on every owner kind, a recorded error, size-declaring items, alignment settings, a stale pointer item + zero-value Cell in a skipable column, a table whose JSON rendering fails half-way, a 56-row table) x family render-sequences: every sequence of length <=4 (thorough <=5) over 17 render operations: long-lived csv/json/markdown/html(+row classes)/text(default)/text(ascii) wrappers reused across the sequence, " +
 			"the package-level functions (fresh wrapper each time), auto.Render for three styles, and the long-lived html wrapper re-pointed at a second table; family build+render: every sequence of <=4 (thorough 5) operations over 8 build operations (wide/multi-line rows, separator, cell added to an attached row, item mutated + Update, alignment settings, wider re-header) and the 17 render operations on one table - every render must equal the render of an identically built table that was never rendered before; family after-failed-render: 9 tables x 6 long-lived wrappers x every writer fault (index k x 3 modes), then Render and RenderTo on the same wrapper must give the fault-free bytes; non-trivial = sequence with >=2 renders; distinct by (table, sequence)",
 		Assumptions: []string{"no user callbacks are registered (the statement excludes failing/mutating ones)", "growth of internal callback lists by repeated Wrap is not part of the statement and is not judged",
 			"observable state = row/column counts, every cell's text and location, headers, user-set properties on table/columns/rows/cells, the error list"},
@@ -80,6 +80,7 @@ func c14Tables() []c10Table {
 			t.AddRow(r)
 			t.Column(2).SetProperty(properties.Skipable, true)
 		}},
+		c10Table{"tall: 56 rows and separators", func(t tabular.Table) { WideGrids()[0].Build(t) }},
 		c10Table{"json fails half-way (unencodable item in the second row)", func(t tabular.Table) {
 			t.AddHeaders("h1", "h2")
 			t.AddRowItems("fine", 1)
